@@ -57,6 +57,10 @@ def _spd(rng, lead, D, complex_=False):
         ev[..., 0] = 1.0
         ev[..., -1] = 10.0 ** (-logc[..., 0])
     ev = ev * 10.0 ** rng.uniform(-2, 2, size=lead + (1,))
+    if rng.random() < 0.2:
+        # the absolute scale of a covariance is free (only the condition number is bounded): det may leave the binary64
+        # range although log det is an ordinary number
+        ev = ev * 10.0 ** rng.choice([-45.0, -30.0, 30.0, 45.0], size=lead + (1,))
     cov = np.einsum('...ik,...k,...jk->...ij', q, ev, q.conj())
     cov = (cov + np.conj(np.swapaxes(cov, -1, -2))) / 2
     return cov, q, ev
@@ -466,6 +470,59 @@ def evaluate(rp, rng=None):
     return None, None, coq, None
 
 
+REPARAM_FAMS = ('ccsg', 'vmf', 'watson', 'bingham', 'cacg')     # no derived fields computed at construction time
+ATTR = {'E': 'covariance_eigenvectors', 'lam': 'covariance_eigenvalues'}
+
+
+def make_reparam_case(rng, fam):
+    """multi-step sequence on ONE object: evaluate, assign new parameters to the stored fields, evaluate again; the second
+    result must be the log-density at the parameters stored NOW (equal to a fresh object's)"""
+    a = gen(rng, fam, 'quick')
+    b = None
+    for _ in range(3000):
+        c = gen(rng, fam, 'quick')
+        if all(np.shape(a[k]) == np.shape(c[k]) for k in PARAMS[fam]):
+            b = c
+            break
+    if b is None:
+        b = {k: (np.array(v)[..., ::-1].copy() if k in PARAMS[fam] and np.ndim(v) == 0 else np.array(v)) for k, v in a.items()}
+        for k in PARAMS[fam]:
+            if k in ('concentration',):
+                b[k] = np.array(a[k]) * 0.5 + 1.0
+            if k == 'lam':
+                b[k] = np.array(a[k]) * 0.5
+            if k == 'covariance':
+                b[k] = np.array(a[k]) * 3.0
+    rp = {'fam': fam, 'reparam': True, 'a': a, 'b': b, 'inplace': bool(rng.random() < 0.5)}
+    fail, key = evaluate_reparam(rp)
+    name = 'C07 %s re-parametrised object (%s)' % (fam, 'in-place update' if rp['inplace'] else 'attribute assignment')
+    return Case(name, coq=None, pred_fail=fail, key=key, nontrivial=True, digest_=core.digest(name, *[a[k] for k in PARAMS[fam]], *[b[k] for k in PARAMS[fam]]),
+                sample={'name': name}, replay=rp, kind='reparam/' + fam)
+
+
+def evaluate_reparam(rp):
+    fam = rp['fam']
+    a = {k: np.array(v) for k, v in rp['a'].items() if k in PARAMS[fam] + ('y',)}
+    b = {k: np.array(v) for k, v in rp['b'].items() if k in PARAMS[fam] + ('y',)}
+    try:
+        obj = build(dict(rp['a'], **a))
+        first = np.asarray(obj.log_pdf(np.array(a['y'])))
+        for k in PARAMS[fam]:
+            attr = ATTR.get(k, k)
+            if rp.get('inplace') and np.shape(getattr(obj, attr)) == np.shape(b[k]):
+                getattr(obj, attr)[...] = b[k]
+            else:
+                setattr(obj, attr, np.array(b[k]))
+        second = np.asarray(obj.log_pdf(np.array(a['y'])))
+        fresh = np.asarray(build(dict(rp['b'], **b)).log_pdf(np.array(a['y'])))
+    except Exception as e:
+        return '%s: re-parametrised object raised %s: %s' % (fam, type(e).__name__, str(e)[:200]), '%s:reparam:raises' % fam
+    if second.shape != fresh.shape or np.any(np.abs(second - fresh) > 1e-9 * (1 + np.abs(fresh))):
+        return ('%s.log_pdf after re-parametrising the object is not the log-density at the stored parameters: %r vs fresh object %r'
+                % (fam, second.ravel()[:3].tolist(), fresh.ravel()[:3].tolist())), '%s:reparam:stale' % fam
+    return None, None
+
+
 def nontrivial(rp):
     fam = rp['fam']
     D = rp['y'].shape[-1]
@@ -631,6 +688,9 @@ def cases(rng, tier):
     for fam in FAMS:
         for _ in range(1 if tier == 'quick' else 8):
             out.append(make_integral_case(rng, fam))
+    for fam in REPARAM_FAMS:
+        for _ in range(2 if tier == 'quick' else 12):
+            out.append(make_reparam_case(rng, fam))
     return out
 
 
@@ -651,4 +711,6 @@ def replay(payload):
     rp = payload['replay']
     if rp.get('integral'):
         return evaluate_integral(rp)[0]
+    if rp.get('reparam'):
+        return evaluate_reparam(rp)[0]
     return evaluate(rp)[0]
